@@ -47,6 +47,8 @@ func init() {
 // ---------------------------------------------------------------- c02lin
 
 type c02LinScenario struct {
+	// Glob[v][h]: in version v host h is registered as the glob pattern *.h<h>.example.com instead of the literal name
+	Glob     [][]bool   `json:"glob_host_in_version"`
 	Versions int        `json:"table_versions"`
 	Hosts    int        `json:"hosts"`
 	Paths    int        `json:"paths"`
@@ -58,8 +60,12 @@ type c02LinScenario struct {
 func c02LinText(sc *c02LinScenario, v int) string {
 	var b strings.Builder
 	for h := 0; h < sc.Hosts; h++ {
+		host := fmt.Sprintf("x.h%d.example.com", h)
+		if v < len(sc.Glob) && h < len(sc.Glob[v]) && sc.Glob[v][h] {
+			host = fmt.Sprintf("*.h%d.example.com", h)
+		}
 		for p := 0; p < sc.Paths; p++ {
-			fmt.Fprintf(&b, "route add s%d-%d h%d.example.com/p%d http://v%d-h%d-p%d:80/\n", h, p, h, p, v, h, p)
+			fmt.Fprintf(&b, "route add s%d-%d %s/p%d http://v%d-h%d-p%d:80/\n", h, p, host, p, v, h, p)
 		}
 	}
 	fmt.Fprintf(&b, "route add tcp :7000 tcp://v%d-tcp:7000\n", v)
@@ -106,7 +112,7 @@ func runC02Lin(r *simcore.Run) {
 			if g.Chance(15) {
 				l = append(l, ":7000")
 			} else {
-				l = append(l, fmt.Sprintf("h%d.example.com/p%d", g.Intn(sc.Hosts), g.Intn(sc.Paths)))
+				l = append(l, fmt.Sprintf("x.h%d.example.com/p%d", g.Intn(sc.Hosts), g.Intn(sc.Paths)))
 			}
 		}
 		sc.Readers = append(sc.Readers, l)
@@ -117,6 +123,14 @@ func runC02Lin(r *simcore.Run) {
 		}
 	}
 	sc.Stick = []int{1, 1, 4}[g.Intn(3)]
+	// every version routes every request; versions differ in whether a host is a literal or a glob pattern
+	for v := 0; v <= sc.Versions; v++ {
+		row := make([]bool, sc.Hosts)
+		for h := range row {
+			row[h] = g.Chance(40)
+		}
+		sc.Glob = append(sc.Glob, row)
+	}
 	r.SetSample(sc)
 
 	d := simcore.NewDriver(r)
@@ -193,7 +207,7 @@ func runC02Lin(r *simcore.Run) {
 						want = fmt.Sprintf("tcp://v%d-tcp:7000", ver)
 					} else {
 						host, path, _ := strings.Cut(key, "/")
-						want = fmt.Sprintf("http://v%d-%s-%s:80/", ver, strings.TrimSuffix(host, ".example.com"), path)
+						want = fmt.Sprintf("http://v%d-%s-%s:80/", ver, strings.TrimSuffix(strings.TrimPrefix(host, "x."), ".example.com"), path)
 					}
 					if url != want {
 						r.Fail("mixture", "wrong-target", "lookup %s returned %s, which is the target of another route", key, url)
@@ -322,6 +336,8 @@ var c02ValidMan = []string{
 	"route add cr /cr http://9.1.1.1:1/\r\nroute add cr /cr2 http://9.1.1.2:1/\r",
 	"route add r /r https://x.example.com$path opts \"redirect=abc\"",
 	"route add t :9000 tcp://9.1.1.1:9 opts \"proto=tcp allow=ip:300.1.1.1\"",
+	"route add hg [a/ http://9.1.1.1:1/",
+	"route add hg2 {x.example.com/ http://9.1.1.1:1/\nroute add ok ok.example.com/ http://9.1.1.2:1/",
 }
 
 var c02InvalidMan = []string{
@@ -553,7 +569,9 @@ func c02GenDoc(g *simcore.Tape, i int) c02Doc {
 	def := func(svc, src, dst string, w float64, tags []string, opts map[string]string) route.RouteDef {
 		return route.RouteDef{Cmd: route.RouteAddCmd, Service: svc, Src: src, Dst: dst, Weight: w, Tags: tags, Opts: opts}
 	}
-	switch g.Intn(8) {
+	switch g.Intn(9) {
+	case 8:
+		return c02Doc{Kind: "null", Body: simcore.Pick(g, []string{"null", "[]", "[null]"})}
 	case 0:
 		return c02Doc{Kind: "badjson", Body: "[{\"cmd\": \"route add\", "}
 	case 1:
@@ -682,6 +700,7 @@ func runC02Custom(r *simcore.Run) {
 		want[i] = curWant
 	}
 	checked := 0
+	nullSeen := false
 	for steps := 0; steps < 4000 && !wb.Done(); steps++ {
 		synctest.Wait()
 		mu.Lock()
@@ -692,7 +711,11 @@ func runC02Custom(r *simcore.Run) {
 			if s > checked && s <= len(sc.Docs) {
 				checked = s
 				got := strings.Join(c01TableSet(route.GetTable()), "\n")
-				if got != want[s-1] {
+				// the document 'null' may count as "no routes" or as no document at all: only its successors are judged again
+				if sc.Docs[s-1].Body == "null" {
+					nullSeen = true
+				}
+				if got != want[s-1] && !nullSeen {
 					r.Fail("last-good", "custom-active-table-differs", "after document #%d (%s) the active table is not the table of the last valid document:\n got: %s\nwant: %s", s, sc.Docs[s-1].Kind, strings.ReplaceAll(got, "\n", " | "), strings.ReplaceAll(want[s-1], "\n", " | "))
 				}
 				probe()
